@@ -22,6 +22,12 @@ func genC18(r *Rng, tier string, o *Out) {
 		if r.Chance(10) {
 			capv = r.Range(2, 4096)
 		}
+		// a few rings larger than the packet size recorded in the buffer description (8192 by default), read in
+		// chunks of exactly that size (and its neighbours): no chunk size is special
+		big := r.Chance(2)
+		if big {
+			capv = r.Pick(8193, 8200, 10000, 16384, 24581)
+		}
 		raw := fmt.Sprintf("dvh_raw_%d_%d", os.Getpid(), i)
 		desc := fmt.Sprintf("dvh_desc_%d_%d", os.Getpid(), i)
 		if r.Chance(15) {
@@ -51,6 +57,13 @@ func genC18(r *Rng, tier string, o *Out) {
 			panic(err)
 		}
 		nops := r.Range(1, 40)
+		if big {
+			nops = r.Range(3, 14)
+		}
+		pktSize := 0
+		if ps, err := wr.PacketSize(); err == nil {
+			pktSize = int(ps)
+		}
 		done := 0 // ops completed (their tokens are in sb)
 		cur := "" // the op being executed, for a panic report
 		panicked := ""
@@ -140,6 +153,9 @@ func genC18(r *Rng, tier string, o *Out) {
 					fmt.Fprintf(&sb, " R %d %s", sz, hexs(cp))
 				case c < 80: // read multiple of k (k>=1; 0 divides by zero in the code: excluded)
 					kk := r.Pick(1, 2, 3, 4, 8, capv-1, capv, capv+1)
+					if big && pktSize > 0 {
+						kk = r.Pick(pktSize, pktSize, pktSize, pktSize-1, pktSize+1, 100, capv-1)
+					}
 					if kk < 1 {
 						kk = 1
 					}
